@@ -81,7 +81,8 @@ def detect(program, details: dict) -> tuple[dict[str, str], dict[str, str]]:
         container = old_q.rsplit('.', 1)[0]
         # moved: same simple name, one other place, unknown to the reviewed tree
         same_name = [q for q in top_now if _simple(q) == old and q not in ref_names]
-        if len(same_name) == 1 and container in program.modules:
+        if len(same_name) == 1 and (container in program.modules or container.rsplit('.', 1)[0] in program.modules):
+            # a module-level helper in another module, or a method that did not use `self` made a module-level function (or the reverse)
             moves[old_q] = same_name[0]
             continue
         if same_name:
@@ -179,6 +180,19 @@ def _function_scopes(tree: ast.Module):
             yield fn, bound
 
 
+_SHAPELY_TOP = {'Point', 'LineString', 'LinearRing', 'Polygon', 'MultiPoint', 'MultiLineString', 'MultiPolygon', 'GeometryCollection'}
+
+
+def _same_object(a: str, b: str) -> bool:
+    """Two qualified names of one object: shapely >= 2 exports its geometry classes at the top level as well as from shapely.geometry."""
+    def canon(q):
+        parts = q.split('.')
+        if parts[0] == 'shapely' and parts[-1] in _SHAPELY_TOP and parts[1:-1] in ([], ['geometry']):
+            return 'shapely.' + parts[-1]
+        return q
+    return canon(a) == canon(b)
+
+
 def normalise_import_style(program, ref_imports: dict) -> list[str]:
     """The reviewed tree reached a function as `utils.name_to_data_array` (`from emsarray import utils`); a module that now imports the
     name itself (`from emsarray.utils import name_to_data_array`) and calls it bare - or the other way round, or `import numpy as np`
@@ -196,6 +210,9 @@ def normalise_import_style(program, ref_imports: dict) -> list[str]:
         for name, target in list(mod.imports.items()):
             if name in ref and ref[name] == target:
                 continue
+            if name in ref and _same_object(ref[name], target):
+                mod.imports[name] = ref[name]
+                continue
             owner, _, attr = target.rpartition('.')
             if owner and owner in ref_module_alias and name == attr and name not in ref:
                 # now: from owner import attr   then: <alias>.attr
@@ -208,7 +225,7 @@ def normalise_import_style(program, ref_imports: dict) -> list[str]:
             owner, _, attr = target.rpartition('.')
             if alias == attr and alias not in mod.imports:
                 for a_now, t_now in mod.imports.items():
-                    if t_now == owner:
+                    if t_now == owner or _same_object(f"{t_now}.{attr}", target):
                         unqualify.add((a_now, attr))
         if not (qualify or unqualify or realias):
             continue
@@ -244,7 +261,7 @@ def normalise_import_style(program, ref_imports: dict) -> list[str]:
             for now, then in realias.items():
                 mod.imports.setdefault(then, mod.imports[now])
             for alias, attr in unqualify:
-                mod.imports.setdefault(attr, f"{mod.imports[alias]}.{attr}")
+                mod.imports.setdefault(attr, ref.get(attr) or f"{mod.imports[alias]}.{attr}")
             ast.fix_missing_locations(mod.tree)
             notes.append(f"{mname}: {changed} name(s) read in the reviewed tree's import spelling")
     return notes
